@@ -342,6 +342,37 @@ Section Phases.
     intros k' Hk. rewrite !get_set_other by exact Hk. reflexivity.
   Qed.
 
+  Lemma rs_flag_unsynced s k (g : fflags -> fflags) k' :
+    (forall x, fl_unsynced (g x) = fl_unsynced x) -> fl_unsynced (get_fl (r_flags (rs_flag s k g)) k') = fl_unsynced (get_fl (r_flags s) k').
+  Proof.
+    intro Hg. unfold rs_flag, rs_setfl. cbn [r_flags]. destruct (fkey_eqb k k') eqn:E.
+    - apply fkey_eqb_eq in E. subst k'. rewrite get_set_same. apply Hg.
+    - rewrite get_set_other; [reflexivity|]. intro X. subst k'. rewrite fkey_eqb_refl in E. discriminate.
+  Qed.
+
+  (* the size / time-stamp test that flags a file UNSYNCED is made at the FIRST open of the file in the run only (FILE_IS_OPENED):
+     once a file is flagged OPENED, opening it again -- after fix itself has written a repaired block into it and so changed its
+     time-stamp -- leaves the UNSYNCED flag of every file as it was (check.c state_check_process: `if (!file_flag_has(file,
+     FILE_IS_OPENED) && ...)`).  For ANY options (also -e / -b, where UNSYNCED files are skipped). *)
+  Lemma open_step_opened_keeps_unsynced o pos j f s s4 :
+    fl_opened (get_fl (r_flags s) (j, cf_name f)) = true -> open_step bs newino now o pos j f s = Some s4 ->
+    (forall k, fl_unsynced (get_fl (r_flags s4) k) = fl_unsynced (get_fl (r_flags s) k))
+    /\ r_tags s4 = r_tags s /\ r_err s4 = r_err s.
+  Proof.
+    intros Hop H. unfold open_step in H.
+    destruct (negb (co_fix o && negb (is_excl o j (cf_name f))) && _) in H; [discriminate|].
+    destruct (fs_find (r_fs s) j (cf_name f)) as [g|] eqn:Eg.
+    - rewrite Eg in H. rewrite Hop in H. cbn [negb andb] in H. injection H as H. subst s4.
+      split; [|split; reflexivity]. intro k. apply (rs_flag_unsynced s (j, cf_name f) fl_set_opened k). reflexivity.
+    - match type of H with match ?x with Some _ => _ | None => _ end = _ => destruct x as [g0|] eqn:Eg0; [|discriminate] end.
+      assert (Hop' : fl_opened (get_fl (r_flags (rs_flag (rs_setfs s (fs_put (r_fs s) j (mkFF (cf_name f) 0 now 0 (newino j (cf_name f)) []))) (j, cf_name f) fl_set_created)) (j, cf_name f)) = true).
+      { unfold rs_flag, rs_setfl, rs_setfs. cbn [r_flags]. rewrite get_set_same. exact Hop. }
+      rewrite Hop' in H. cbn [negb andb] in H. injection H as H. subst s4.
+      split; [|split; reflexivity]. intro k.
+      rewrite (rs_flag_unsynced _ (j, cf_name f) fl_set_opened k) by reflexivity.
+      apply (rs_flag_unsynced (rs_setfs s _) (j, cf_name f) fl_set_created k). reflexivity.
+  Qed.
+
   Lemma rs_flag_other s k g k' : k' <> k -> get_fl (r_flags (rs_flag s k g)) k' = get_fl (r_flags s) k'.
   Proof. intro H. unfold rs_flag, rs_setfl. cbn [r_flags]. apply get_set_other. exact H. Qed.
 
